@@ -358,9 +358,11 @@ def _decrypt_hmac(key: bytes, data: bytes, digest: str) -> bytes:
     cipher = _create_cipher(key, iv)
 
     decrypted = cipher.decrypt(encrypted)
-    if decrypted[-1] <= 16:
-        # PKCS#7 padding
-        decrypted = decrypted[: -decrypted[-1]]
+    if (padding := decrypted[-1]) <= 16:
+        # PKCS#7 padding, the HMAC only covers the unpadded data so every padding byte must be checked
+        if padding == 0 or decrypted[-padding:] != bytes([padding]) * padding:
+            raise ValueError("Invalid padding, wrong key?")
+        decrypted = decrypted[:-padding]
 
     # We don't do any secret crypto so we don't care about the warning in the docs about timing attacks
     if hmac.digest(key, decrypted, digest)[:digest_size] != mac:
